@@ -547,3 +547,111 @@ def extract_item(src, loc, spec, ed):
                 continue
             i += 1
     return lo_pos, hi_pos
+
+
+def extract_block_as_fn(src, loc, spec, ed):
+    """Loop-body / closure-body unit (DESIGN 3.3): emit the *real* text of loop #k's body (or of
+    closure #k's body) of a function as a stand-alone fn whose parameters are the free variables,
+    declared by the unit and type-checked by rustc inside Verus.  The header of the loop (what it
+    iterates over) is dropped and must be covered by another obligation (stated in the unit)."""
+    toks = src.toks
+    name = spec["as_fn"]
+    brace = loc["brace"]
+    close = src.pairs[brace]
+    if "loop" in spec:
+        loops = find_loops(src, brace + 1, close)
+        if "n_loops" in spec and spec["n_loops"] != len(loops):
+            raise Undecided("lost anchor: %s has %d loops, table expects %d" % (spec["path"], len(loops), spec["n_loops"]))
+        if spec["loop"] >= len(loops):
+            raise Undecided("lost anchor: loop #%d of %s" % (spec["loop"], spec["path"]))
+        L = loops[spec["loop"]]
+        if spec.get("header_re"):
+            hdr = " ".join(src.text[toks[L["kw"]].pos:toks[L["open"]].pos].split())
+            if not re.search(spec["header_re"], hdr):
+                raise Undecided("lost anchor: header of loop #%d of %s is `%s`" % (spec["loop"], spec["path"], hdr))
+        b_open, b_close = L["open"], L["close"]
+    else:
+        # closure ordinal: k-th `|..|` closure in the function body whose body is a block
+        k = -1
+        i = brace + 1
+        b_open = None
+        while i < close:
+            t = toks[i]
+            if t.kind == "punct" and t.text in ("|", "||") and (toks[i - 1].text in ("(", ",", "=", "move") ):
+                j = i + 1
+                if t.text == "|":
+                    while toks[j].text != "|":
+                        if toks[j].text in "([":
+                            j = src.pairs[j]
+                        j += 1
+                    j += 1
+                if toks[j].text == "{":
+                    k += 1
+                    if k == spec["closure"]:
+                        b_open = j
+                        if spec.get("header_re"):
+                            hdr = " ".join(src.text[t.pos:toks[j].pos].split())
+                            if not re.search(spec["header_re"], hdr):
+                                raise Undecided("lost anchor: closure #%d of %s has parameters `%s`" % (k, spec["path"], hdr))
+                        break
+            i += 1
+        if b_open is None:
+            raise Undecided("lost anchor: closure #%d of %s" % (spec["closure"], spec["path"]))
+        b_close = src.pairs[b_open]
+    # forbidden control flow out of the block
+    depth_loops = find_loops(src, b_open + 1, b_close)
+    inner = [(l["open"], l["close"]) for l in depth_loops]
+    for i in range(b_open + 1, b_close):
+        t = toks[i]
+        if t.kind == "ident" and t.text in ("break", "continue") and not any(o < i < c for o, c in inner):
+            if not spec.get("allow_break"):
+                raise Undecided("block of %s contains `%s`" % (name, t.text))
+        if t.kind == "ident" and t.text == "return" and not spec.get("allow_return"):
+            raise Undecided("block of %s contains `return`" % name)
+        if t.kind == "punct" and t.text == "?" and not spec.get("allow_return"):
+            raise Undecided("block of %s contains `?`" % name)
+    header = "%spub fn %s%s(%s)%s" % ((spec.get("attrs") + "\n") if spec.get("attrs") else "", name,
+                                   spec.get("generics", ""), spec["params"],
+                                   (" -> (%s: %s)" % (spec.get("ret", "out"), spec["ret_type"])) if spec.get("ret_type") else "")
+    contract = spec.get("contract", "").strip()
+    ed.insert(toks[b_open].pos, header + ("\n    " + contract.replace("\n", "\n    ") + "\n" if contract else "\n"), order=-5)
+    for r in spec.get("rules", ["R1", "R10"]):
+        RULES[r](src, ed, b_open + 1, b_close, name)
+    if spec.get("entry"):
+        ed.insert(toks[b_open].end, "\n" + spec["entry"] + "\n", order=5)
+    if spec.get("exit"):
+        ed.insert(toks[b_close].pos, "\n" + spec["exit"] + "\n", order=-5)
+    lspec = spec.get("loops", {})
+    for kk in lspec:
+        if kk >= len(depth_loops):
+            raise Undecided("lost anchor: inner loop #%d of %s" % (kk, name))
+    for kk, L2 in enumerate(depth_loops):
+        a = lspec.get(kk)
+        if not a:
+            continue
+        if a.get("kind") and a["kind"] != L2["kind"]:
+            raise Undecided("lost anchor: inner loop #%d of %s is `%s`" % (kk, name, L2["kind"]))
+        if a.get("before"):
+            s0 = _stmt_start(src, L2["kw"], b_open + 1)
+            ed.insert(toks[s0].pos, a["before"] + "\n", order=-3)
+        if a.get("binder"):
+            ed.insert(toks[L2["in_idx"]].end, " %s:" % a["binder"], order=0)
+        if a.get("head"):
+            ed.insert(toks[L2["open"]].pos, "\n" + a["head"] + "\n", order=5)
+        if a.get("body_start"):
+            ed.insert(toks[L2["open"]].end, "\n" + a["body_start"] + "\n", order=5)
+        if a.get("body_end"):
+            ed.insert(toks[L2["close"]].pos, "\n" + a["body_end"] + "\n", order=-5)
+        if a.get("after"):
+            ed.insert(toks[L2["close"]].end, "\n" + a["after"] + "\n", order=5)
+    body_lo, body_hi = toks[b_open].end, toks[b_close].pos
+    for (pat, repl, why) in spec.get("body_subst", []):
+        body = src.text[body_lo:body_hi]
+        ms = list(re.finditer(pat, body))
+        if not ms:
+            raise Undecided("lost anchor: body pattern %r not found in %s" % (pat, name))
+        for m in ms:
+            ed.replace(body_lo + m.start(), body_lo + m.end(), m.expand(repl), rule="%s %s" % (why, name))
+    ed.log.append("BLOCK %s: body of %s #%d of `%s` emitted as fn %s(%s); its header is not part of this unit" % (
+        name, "loop" if "loop" in spec else "closure", spec.get("loop", spec.get("closure")), spec["path"], name, spec["params"]))
+    return toks[b_open].pos, toks[b_close].end
